@@ -165,6 +165,8 @@ func (c *Ctx) prelude() {
 	c.decl("elem_base", "(declare-fun elem_base (Ref) Ref)")
 	c.decl("elem_idx", fmt.Sprintf("(declare-fun elem_idx (Ref) %s)", is))
 	c.decl("elem_inj", fmt.Sprintf("(assert (forall ((r Ref) (i %s)) (! (and (= (elem_base (elem r i)) r) (= (elem_idx (elem r i)) i) (=> (not (= r nil)) (not (= (elem r i) nil)))) :pattern ((elem r i)))))", is))
+	c.decl("sidx", fmt.Sprintf("(declare-fun sidx (Slice %s) Ref)", is))
+	c.decl("sidx_def", fmt.Sprintf("(assert (forall ((s Slice) (i %s)) (! (= (sidx s i) (elem (sl_arr s) (%s (sl_off s) i))) :pattern ((sidx s i)))))", is, map[bool]string{true: "bvadd", false: "+"}[c.bv]))
 	c.decl("root", "(declare-fun root (Ref) Ref)")
 	c.decl("root_elem", fmt.Sprintf("(assert (forall ((r Ref) (i %s)) (! (= (root (elem r i)) (root r)) :pattern ((elem r i)))))", is))
 	c.decl("root_nil", "(assert (= (root nil) nil))")
@@ -526,7 +528,11 @@ func (c *Ctx) rangeFact(term string, t types.Type, depth int) string {
 		}
 		return fmt.Sprintf("(and (<= 0 (sl_off %s)) (<= 0 (sl_len %s)) (<= (sl_len %s) (sl_cap %s)) (<= (sl_cap %s) 4611686018427387904) (=> (= (sl_arr %s) nil) (= (sl_cap %s) 0)))", term, term, term, term, term, term, term)
 	case *types.Interface:
-		return fmt.Sprintf("(=> (= (if_tag %s) 0) (= %s (mk_Iface 0 nilbox)))", term, term)
+		f := fmt.Sprintf("(=> (= (if_tag %s) 0) (= %s (mk_Iface 0 nilbox)))", term, term)
+		if _, named := t.(*types.Named); named && u.NumMethods() > 0 {
+			f = fmt.Sprintf("(and %s (or (= (if_tag %s) 0) (%s (if_tag %s))))", f, term, c.implementsPred(t), term)
+		}
+		return f
 	case *types.Struct:
 		var fs []string
 		for i := 0; i < u.NumFields(); i++ {
